@@ -207,6 +207,11 @@ def render_family(fam, opts_override=None, suffix=""):
             out.append("    %s = %s\n" % (f["name"], src))
         out.append("\n")
     _CURRENT_TNAMES = None
+    if fam.get("local_classes"):
+        # the same declarations inside a function: such classes cannot be pickled (a different cloning path for prototypes)
+        body = "".join(out[1:])
+        body = "".join(("    " + l if l.strip() else l) for l in body.splitlines(True))
+        return out[0] + "def _make():\n" + body + "    return dict(locals())\n\nglobals().update(_make())\n"
     return "".join(out)
 
 
